@@ -11,20 +11,25 @@ operation = one message), for ALL states, amounts, accounts, denoms and ALL oper
   changes, market closure, bank sends): for every account and denom the hold equals what the
   open orders, commitments and payments require (`Spec.HoldsMatch`, no more, no less) and does
   not exceed the balance (`Spec.HoldsCovered`).
+* `from_matching_genesis` — the same from an accepted genesis whose holds match its records
+  (`matching_genesis_inv`: the records' well-formedness follows from `GenesisState.Validate`).
 * `*_delta_exact` — each operation changes the hold by exactly the reserved amount of the item(s)
-  it handles; `hold_change_eq_obligation_change` for every operation.
+  it handles (create, cancel, settle incl. the written-back remainder, fills, commit, release,
+  commitment settlement, payment create/accept/reject/cancel, market closure; no change for
+  retarget / bank send / fee changes); `hold_change_eq_obligation_change` for every operation;
+  `rejected_changes_nothing`.
 * `split_hold_additive` — filled + remaining hold = original hold for every `Order.Split`.
 * `cancel_by_owner_never_fails`, `closeMarket_never_swallows_an_error` — "no less": the hold is
   never short when a record is released.
-* genesis: `InitGenesis` accepts exactly the geneses whose holds COVER the records
+* genesis: `InitGenesis` accepts only geneses whose holds COVER the records
   (`initGenesis_accepts_covering`); coverage is not equality (`genesis_excess_hold_accepted`,
   a concrete accepted genesis with a larger hold), which is why the property starts "from a
-  genesis whose holds match its exchange records" — that premise is `Inv s₀`.
+  genesis whose holds match its exchange records".
 
 The settlement's price/fee arithmetic is property C01's: `settle`/`fill*` take the observed
 result class and net balance moves as an input (`Oracle`); the theorems hold for every such input.
 -/
-import PvProofs.Lemmas.ExholdSpecBridge
+import PvProofs.Lemmas.ExholdClose
 
 namespace PvProofs.C02
 open PvModel PvModel.Exhold PvProofs.Exhold
@@ -177,7 +182,7 @@ theorem holds_always_match (s₀ : State) (ops : List Op) (hg : ∀ op ∈ ops, 
 /-- the empty chain state satisfies the invariant, so it holds on every state reachable from it -/
 theorem inv_empty : Inv ({} : State) :=
   ⟨fun a d => by simp [hold, obligations], fun a d => by simp [hold, bal],
-   ⟨fun o h => by simp at h, fun o h => by simp at h, by simp, fun c h => by simp at h, fun p h => by simp at h, by simp⟩⟩
+   ⟨fun o h => by simp at h, fun o h => by simp at h, by simp, fun c h => by simp at h, by simp, fun p h => by simp at h, by simp⟩⟩
 
 theorem reachable_holds_match (ops : List Op) (hg : ∀ op ∈ ops, isGenesis op = false) :
     Spec.HoldsMatch (run {} ops) ∧ Spec.HoldsCovered (run {} ops) :=
@@ -325,6 +330,23 @@ theorem releaseCommitment_delta_exact {s s' : State} {m : Nat} {acct : Addr} {am
     hold s' a d = hold s a d - (if acct = a then Coins.amountOf (releasedAmount s m acct amount) d else 0) :=
   (releaseCommitment_inv hi h).2 a d
 
+/-- `MarketCommitmentSettle` (release inputs + fees, transfer, re-commit outputs) touches neither
+orders nor payments, and every account's hold changes by exactly the change of what it has
+committed: what was released for inputs and fees minus what was re-committed as outputs. -/
+theorem commitmentSettle_delta_exact {s s' : State} {admin : Addr} {m : Nat} {ins outs fees : List (Addr × Coins)}
+    (hi : Inv s) (h : settleCommitments s admin m ins outs fees = .ok s') (a : Addr) (d : Denom) :
+    s'.orders = s.orders ∧ s'.payments = s.payments ∧
+    hold s' a d - hold s a d =
+      Spec.sumOver s'.commitments (fun c => if c.account = a then Spec.commitmentReserved c d else 0)
+      - Spec.sumOver s.commitments (fun c => if c.account = a then Spec.commitmentReserved c d else 0) := by
+  obtain ⟨ho, hp⟩ := settleCommitments_sameOP h
+  have h1 := (settleCommitments_inv hi h).holdsMatch a d
+  have h2 := hi.holdsMatch a d
+  refine ⟨ho, hp, ?_⟩
+  simp only [obligations, ho, hp] at h1 h2
+  rw [← sumOver_commits, ← sumOver_commits]
+  omega
+
 /-- `CreatePayment`: the source's hold rises by exactly the source amount (the target amount is
 not reserved). -/
 theorem createPayment_delta_exact {s s' : State} {p : Payment} (hi : Inv s) (h : createPayment s p = .ok s')
@@ -403,6 +425,89 @@ theorem closeMarket_never_swallows_an_error {s : State} (hi : Inv s) :
         have h3 := paysObl_nonneg hi.wf.paysNonneg a e
         simp only [obligations]; omega)
 
+/-- **Market closure, exactly.** `CloseMarket` removes precisely the orders of that market and
+empties precisely its commitments; every account's hold falls by exactly the reserved amounts of
+its orders in that market plus its commitments to that market; everything else stays. -/
+theorem closeMarket_delta_exact {s : State} (hi : Inv s) (m : Nat) :
+    (∀ o, o ∈ (closeMarket s m).orders ↔ o ∈ s.orders ∧ o.market ≠ m) ∧
+    (∀ c ∈ (closeMarket s m).commitments, c.market = m → allZero c.amount = true) ∧
+    (∀ m' a', m' ≠ m → getCommitment (closeMarket s m).commitments m' a' = getCommitment s.commitments m' a') ∧
+    (∀ a d, hold (closeMarket s m) a d = hold s a d
+        - reservedOf (s.orders.filter (·.market = m)) a d
+        - Spec.sumOver (s.commitments.filter (·.market = m))
+            (fun c => if c.account = a then Spec.commitmentReserved c d else 0)) := by
+  -- the switches first (records untouched)
+  have hs1 : ∃ s1 : State, Inv s1 ∧ s1.orders = s.orders ∧ s1.commitments = s.commitments ∧
+      (∀ a d, hold s1 a d = hold s a d) ∧
+      closeMarket s m = releaseAllCommitmentsForMarket (cancelAllOrdersForMarket s1 m) m := by
+    unfold closeMarket
+    cases getMarket s m with
+    | none => exact ⟨s, hi, rfl, rfl, fun _ _ => rfl, rfl⟩
+    | some mk =>
+      exact ⟨setMarket s { mk with acceptingOrders := false, acceptingCommitments := false },
+        hi.of_markets _, rfl, rfl, fun _ _ => rfl, rfl⟩
+  obtain ⟨s1, hi1, ho1, hc1, hh1, hcm⟩ := hs1
+  rw [hcm]
+  unfold cancelAllOrdersForMarket releaseAllCommitmentsForMarket
+  -- cancel every order of the market
+  have hsubO : (s1.orders.filter (·.market = m)).Sublist s1.orders := List.filter_sublist
+  obtain ⟨hi2, ho2, hc2, hh2⟩ := foldl_cancel_spec hi1 (s1.orders.filter (·.market = m))
+    (hi1.wf.idsNodup.sublist (hsubO.map _))
+    (fun o ho => getOrder_of_mem_nodup hi1.wf.idsNodup (hsubO.subset ho))
+  generalize ((s1.orders.filter (·.market = m)).map (·.id)).foldl cancelOrderNoTx s1 = s2 at hi2 ho2 hc2 hh2
+  -- release every commitment to the market
+  have hsubC : (s2.commitments.filter (·.market = m)).Sublist s2.commitments := List.filter_sublist
+  have hmk : ∀ c ∈ s2.commitments.filter (·.market = m), c.market = m := fun c hc => by
+    simpa using (List.mem_filter.mp hc).2
+  obtain ⟨hi3, ho3, hsub3, hkey3, hoth3, hh3⟩ := foldl_release_spec hi2 m (s2.commitments.filter (·.market = m))
+    (accounts_nodup_of_keys (hi2.wf.ckeys.sublist (hsubC.map _)) hmk)
+    (fun c hc => by
+      have := getCommitment_of_mem_nodup hi2.wf.ckeys (hsubC.subset hc)
+      rw [hmk c hc] at this; exact this)
+  generalize ((s2.commitments.filter (·.market = m)).map (·.account)).foldl
+    (fun st a => releaseCommitmentNoTx st m a) s2 = s3 at hi3 ho3 hsub3 hkey3 hoth3 hh3
+  refine ⟨?_, ?_, ?_, ?_⟩
+  · intro o
+    rw [ho3, ho2, ho1]
+    constructor
+    · intro hmem
+      have hin : o ∈ s.orders := (deleteAll_sublist _ _).subset hmem
+      refine ⟨hin, fun hmo => ?_⟩
+      have hnd : ((deleteAll s.orders ((s.orders.filter (·.market = m)).map (·.id))).map (·.id)).Nodup :=
+        hi.wf.idsNodup.sublist ((deleteAll_sublist _ _).map _)
+      have h1 := getOrder_of_mem_nodup hnd hmem
+      have h2 := getOrder_deleteAll_mem hi.wf.idsNodup
+        (ids := (s.orders.filter (·.market = m)).map (·.id)) (id := o.id)
+        (List.mem_map.mpr ⟨o, List.mem_filter.mpr ⟨hin, by simpa using hmo⟩, rfl⟩)
+      rw [h2] at h1; simp at h1
+    · rintro ⟨hin, hmo⟩
+      have hnot : o.id ∉ (s.orders.filter (·.market = m)).map (·.id) := by
+        intro hm
+        obtain ⟨o', ho', hid⟩ := List.mem_map.mp hm
+        have hf := List.mem_filter.mp ho'
+        have h1 := getOrder_of_mem_nodup hi.wf.idsNodup hf.1
+        have h2 := getOrder_of_mem_nodup hi.wf.idsNodup hin
+        rw [hid, h2] at h1
+        injection h1 with h1
+        subst h1
+        exact hmo (by simpa using hf.2)
+      have := getOrder_deleteAll_not_mem s.orders _ hnot
+      rw [getOrder_of_mem_nodup hi.wf.idsNodup hin] at this
+      exact getOrder_mem this
+  · intro c hc hcm'
+    cases hz : allZero c.amount with
+    | true => rfl
+    | false =>
+      exfalso
+      have hin2 : c ∈ s2.commitments := hsub3.subset hc
+      have := hkey3 c (List.mem_filter.mpr ⟨hin2, by simpa using hcm'⟩) hz
+      apply this
+      exact List.mem_map.mpr ⟨c, hc, by simp [commitKey, hcm']⟩
+  · intro m' a' hne
+    rw [hoth3 m' a' hne, hc2, hc1]
+  · intro a d
+    rw [hh3, hh2, hh1, hc2, hc1, ho1, reservedOf, ← sumOver_orders, ← sumOver_commits]
+
 /-- order ids stay distinct and never exceed the last assigned id -/
 theorem order_ids_distinct (ops : List Op) (hg : ∀ op ∈ ops, isGenesis op = false) :
     ((run {} ops).orders.map (·.id)).Nodup ∧ ∀ o ∈ (run {} ops).orders, o.id ≤ (run {} ops).lastOrderId :=
@@ -430,13 +535,20 @@ theorem initGenesis_accepts_covering {s s' : State} {g : Genesis} (h : initGenes
           simpa using hall
         · simp at h
 
-/-- An accepted genesis whose holds match its records is a valid starting point: together with
-`holds_always_match` this is the property's quantifier ("starting from a genesis whose holds
-match its exchange records"). -/
-theorem from_matching_genesis {s s₀ : State} {g : Genesis} (ops : List Op) (_h : initGenesis s g = .ok s₀)
-    (hmatch : Inv s₀) (hg : ∀ op ∈ ops, isGenesis op = false) :
+/-- **The property's starting point.** A genesis that `InitGenesis` accepts and whose holds
+match its exchange records (and do not exceed balances — the hold module's own genesis check)
+satisfies the invariant; the records' well-formedness follows from `GenesisState.Validate`. -/
+theorem matching_genesis_inv {s s₀ : State} {g : Genesis} (h : initGenesis s g = .ok s₀)
+    (hmatch : Spec.HoldsMatch s₀) (hcov : Spec.HoldsCovered s₀) : Inv s₀ :=
+  ⟨fun a d => by rw [obligations_spec]; exact hmatch a d, hcov, initGenesis_wf h⟩
+
+/-- **Main theorem, from genesis.** Starting from a genesis whose holds match its exchange
+records, after any sequence of operations the holds equal the open obligations and never
+exceed the balances. -/
+theorem from_matching_genesis {s s₀ : State} {g : Genesis} (ops : List Op) (h : initGenesis s g = .ok s₀)
+    (hmatch : Spec.HoldsMatch s₀) (hcov : Spec.HoldsCovered s₀) (hg : ∀ op ∈ ops, isGenesis op = false) :
     Spec.HoldsMatch (run s₀ ops) ∧ Spec.HoldsCovered (run s₀ ops) :=
-  holds_always_match s₀ ops hg hmatch
+  holds_always_match s₀ ops hg (matching_genesis_inv h hmatch hcov)
 
 def excessGenesis : Genesis :=
   { orders := [⟨1, 1, "A", true, ("apple", 10), ("usd", 20), [], true⟩], lastOrderId := 1,
